@@ -649,6 +649,13 @@ func (env *Env) unify(a, b Value) (Value, Value) {
 	if kb == kFP && ka == kInt {
 		return env.coerce(a, b.T), b
 	}
+	// an untyped nil next to an interface is the nil interface, not a boxed nil
+	if ka == kIface && isNilVal(b) {
+		return a, zeroValue(a.T)
+	}
+	if kb == kIface && isNilVal(a) {
+		return zeroValue(b.T), b
+	}
 	if ka == kIface && kb != kIface {
 		return a, env.x.makeIface(env.s, b, a.T)
 	}
